@@ -62,6 +62,28 @@ Theorem C03_filter_choice_is_total :
        bytes_ok cur -> exists (rf : ftype) (out : list Z), filter_model m bpp prev cur = Some (rf, out).
 Proof. exact filter_model_total. Qed.
 
+(* THE ROUND TRIP THROUGH THE STREAM WRITER: any split of the image over write calls, any compressor K with inflater I such that I (K x) = x, any bursts in which K's output reaches the chunk layer, any chunk size - the IDAT payloads concatenated and inflated are the scanline stream, and the decoder's row pipeline returns exactly the rows given *)
+Theorem C03_stream_writer_round_trip :
+  forall (P : Z -> Z -> Z -> Z) (K : list Z -> list Z) (I : list Z -> option (list Z)),
+       (forall a b c : Z, byte_ok a -> byte_ok b -> byte_ok c -> P a b c = paeth_spec a b c) ->
+       forall (m : fmethod) (bpp k : nat) (rows pieces bursts : list (list Z)) (cap : nat),
+       (0 < bpp)%nat ->
+       (0 < k)%nat ->
+       (0 < cap)%nat ->
+       Forall (fun r : list Z => length r = (k * bpp)%nat /\ bytes_ok r) rows ->
+       concat pieces = concat rows ->
+       exists (s' : swst) (stream : list Z) (chunks : list (list Z)),
+         sw_run m bpp (sw_init (k * bpp) (length rows)) pieces = Some (s', stream) /\
+         sw_left s' = 0%nat /\
+         sw_cur s' = [] /\
+         (concat bursts = K stream ->
+          I (K stream) = Some stream ->
+          cw_run {| cw_cap := cap; cw_buf := [] |} bursts = Some chunks /\
+          Forall (fun c : list Z => (1 <= length c <= cap)%nat) chunks /\
+          I (concat chunks) = Some stream /\
+          unfilter_rows P bpp (k * bpp) (length rows) [] stream = Ok (rows, [])).
+Proof. exact stream_writer_round_trip. Qed.
+
 (* the stream writer: for every way of cutting the image bytes into write_all calls the compressor gets the stream of the whole-image path, the frame is complete and no partial scanline is left *)
 Theorem C03_stream_writer_any_split :
   forall (m : fmethod) (bpp line : nat) (rows pieces : list (list Z)),
@@ -158,6 +180,7 @@ Print Assumptions C03_encode_then_decode_rows_is_identity.
 Print Assumptions C03_later_rows_round_trip.
 Print Assumptions C03_encoder_never_refuses.
 Print Assumptions C03_filter_choice_is_total.
+Print Assumptions C03_stream_writer_round_trip.
 Print Assumptions C03_stream_writer_any_split.
 Print Assumptions C03_stream_writer_calls_are_cut_invariant.
 Print Assumptions C03_stream_writer_refuses_data_beyond_the_image.
